@@ -290,6 +290,7 @@ class Facts:
         self._f = open(os.path.join(path, "bodies.jsonl"), "rb")
         self._cache = {}
         self._callers = None
+        self._cha = None
         self.n_bodies = len(self.index)
 
     # -- bodies ---------------------------------------------------------------------------
@@ -340,7 +341,7 @@ class Facts:
             self._callers = c
         return self._callers.get(callee, [])
 
-    def reach(self, roots, stop=lambda callee: False, include_closures=True, max_nodes=200000):
+    def reach(self, roots, stop=lambda callee: False, include_closures=True, max_nodes=200000, cha=True):
         """P-CG: set of local bodies reachable from roots via resolved static edges.
         Returns (local_nodes, external_callees (incl. 'dyn X' / '? X' / 'ptr X'), edge_parent)
         Closures defined in a visited function are treated as reachable (they are values the
@@ -364,6 +365,12 @@ class Facts:
             nxt = list(self.callees(n))
             if include_closures:
                 nxt += self.closures_of(n)
+            if cha:
+                more = []
+                for c in nxt:
+                    if (c.startswith("dyn ") or c.startswith("? ")) and not stop(c):
+                        more.extend(self.cha_targets(c))
+                nxt += more
             for c in nxt:
                 if stop(c):
                     ext.setdefault(c, n)
@@ -375,6 +382,19 @@ class Facts:
                 else:
                     ext.setdefault(c, n)
         return seen, ext, parent
+
+    def cha_targets(self, callee):
+        """class-hierarchy expansion of a symbolic `dyn Trait::m` / `? Trait::m` edge to the local impls"""
+        if self._cha is None:
+            self._cha = {}
+            for imp in self.impls:
+                for it in imp["items"]:
+                    self._cha.setdefault((imp["trait"], it["name"]), []).append(it["path"])
+        c = callee.split(" ", 1)[1]
+        if "::" not in c:
+            return []
+        tr, m = c.rsplit("::", 1)
+        return self._cha.get((tr, m), [])
 
     def path_to(self, parent, node):
         out = []
@@ -400,7 +420,8 @@ PASS_THROUGH_SUFFIXES = (
     "::clone", "::into", "::from", "::deref", "::deref_mut", "::as_ref", "::as_mut", "::borrow",
     "::borrow_mut", "::to_owned", "::cloned", "::copied", "::as_deref", "::as_deref_mut",
     "::unwrap_or", "::map", "::branch", "::from_residual", "::from_output", "::into_iter", "::iter",
-    "::next", "::new", "::as_str", "::as_bytes", "::to_string", "::as_slice",
+    "::next", "::new", "::as_str", "::as_bytes", "::to_string", "::as_slice", "::transpose", "::flatten",
+    "::ok_or", "::ok_or_else", "::and_then", "::ok", "::unwrap_or_default", "::unwrap_or_else", "::map_err",
 )
 
 
